@@ -42,6 +42,9 @@ class PropagatePositions:
             res_meta = res.meta
 
             first_meta = self._pp_get_meta(children)
+            # Look up the last child now: `res` may itself be one of the children (an inlined `?rule`),
+            # and an empty `res` must not be found as its own last child once its start has been filled in
+            last_meta = self._pp_get_meta(reversed(children))
             if first_meta is not None:
                 if not hasattr(res_meta, 'line'):
                     # meta was already set, probably because the rule has been inlined (e.g. `?rule`)
@@ -54,7 +57,6 @@ class PropagatePositions:
                 res_meta.container_column = getattr(first_meta, 'container_column', first_meta.column)
                 res_meta.container_start_pos = getattr(first_meta, 'container_start_pos', first_meta.start_pos)
 
-            last_meta = self._pp_get_meta(reversed(children))
             if last_meta is not None:
                 if not hasattr(res_meta, 'end_line'):
                     res_meta.end_line = getattr(last_meta, 'container_end_line', last_meta.end_line)
